@@ -816,6 +816,13 @@ impl<T: Storage> RawNode<T> {
         )
     }
 
+    /// Verification hook: number of the latest Ready whose term/vote change has not
+    /// been reported persisted yet (0 if none).
+    #[cfg(tikv_raft_rs_verif)]
+    pub fn verif_unpersisted_hs_number(&self) -> u64 {
+        self.unpersisted_hs_number
+    }
+
     /// Returns the store as an immutable reference.
     #[inline]
     pub fn store(&self) -> &T {
